@@ -84,3 +84,18 @@ Proof.
   unfold hist, st_tree. vm_compute init_forest.
   do 9 next_step. exact I.
 Qed.
+
+(* --- the second open finding: a batch that writes below z[0] and then replaces z[-1] (the same node) -------------------------------------------- *)
+Definition kz9 : key := KS [122%N].
+Definition ov_lit : lit :=
+  LitNode KDict flcb false [(kz9, LitNode KList fl0 false [(KI 0, LitNode KDict flcb false [(ka, LitLeaf (LInt 1))])]); (kx, LitLeaf (LInt 1))].
+Definition st_ov : state := init_forest [ov_lit] empty_state.
+Definition batch_ov : sop :=
+  mkSop ns (0%nat, []) (Rebind [([kz9; KI 0; ka], VLit (LitLeaf (LInt (-1)))); ([kz9; KI (-1)], VLit (LitLeaf (LInt 5)))]).
+(* the replaced node is a root of its own after the call (slot 1) and is told about the location z[0].a, which does not exist below it *)
+Lemma overlap_refuted :
+  exists e, In e (events_of (step_trace q0 st_ov batch_ov)) /\
+            locate (fst (step q0 st_ov batch_ov)) (ev_id e) = Some (1%nat, []) /\ ev_path e = [] /\
+            map fst (ev_payload e) = [[kz9; KI 0; ka]] /\
+            get_at (fst (step q0 st_ov batch_ov)) (1%nat, [kz9; KI 0; ka]) = None.
+Proof. eexists. split. vm_compute. left. reflexivity. vm_compute. auto. Qed.
